@@ -63,7 +63,7 @@ func add(
 
 	return func(e *am.Event) {
 		// flat skips unnecessary mutations
-		if flat && target.Is(names) {
+		if flat && targetIdle(target) && target.Is(names) {
 			return
 		} else if flat {
 			if target.IsLocal() {
@@ -118,7 +118,7 @@ func remove(
 
 	return func(e *am.Event) {
 		// flat skips unnecessary mutations
-		if flat && target.Not1(targetState) {
+		if flat && targetIdle(target) && target.Not1(targetState) {
 			return
 		} else if flat {
 			if target.IsLocal() {
@@ -427,6 +427,12 @@ func Sync(
 // ///// INTERNAL
 
 // ///// ///// /////
+
+// targetIdle: the skip test of flat pipes is only meaningful when nothing is
+// queued or in progress on the target.
+func targetIdle(target am.Api) bool {
+	return target.QueueLen() == 0 && target.Transition() == nil
+}
 
 func gcHandler(mach am.Api) am.HandlerDispose {
 	return func(id string, ctx context.Context) {
